@@ -168,6 +168,18 @@ func c19Explore(t *testing.T, c *vcore.Ctx) {
 	b := world.NewBackend(dir, true)
 	defer b.Close()
 	if c.Replay != nil {
+		var wc c19wCase
+		if jsonUnmarshal(c.Replay, &wc) == nil && wc.Part == "wrapper" {
+			snap, ids, err := c19wSetup(t, b)
+			if err != nil {
+				c.HarnessError("wrapper setup: %v", err)
+				return
+			}
+			x := runSchedule(t, b, c19wScenario(&wc, snap, ids), wc.Choices)
+			c.Eval()
+			c19wCheck(c, &wc, x, wc.Choices)
+			return
+		}
 		var cc c19Case
 		if err := jsonUnmarshal(c.Replay, &cc); err != nil {
 			c.HarnessError("replay: %v", err)
@@ -200,6 +212,7 @@ func c19Explore(t *testing.T, c *vcore.Ctx) {
 		c.AddStates(int64(st.Executions))
 		c.AddTransitions(int64(st.Executions * (st.MaxPoints + 1)))
 	}
+	c19wExplore(t, c, b)
 	c.Bound("preemption_bound_completed", "unbounded")
 }
 
